@@ -524,7 +524,16 @@ def compareClient (st : State) (c : Nat) (o : Option Srv.ClientOut) (fm : FrameM
     | some mu, _ => [Verdict.mismatch "SRV" s!"tick {tick} client {c}: the model sends an update message (despawns {mu.despawns}, removals {mu.removals.map (·.1)}, changes {mu.changes.map (·.ent)}, mappings {mu.mappings}), the implementation sent {realU.length}"]
   let rme := sortEnts ((realM.flatMap (·.ents)).filterMap (canonReal st))
   let mme := sortEnts (modelM.map canonModel)
-  let vM := if rme = mme then [] else [Verdict.mismatch "SRV" s!"tick {tick} client {c}: mutations impl {rme} model {mme}"]
+  -- The model's belief moves only by acknowledgements of messages that really contained the
+  -- entity (it registers the entities of each real message under that message's index), so a
+  -- difference in the mutation sets is a C11 violation on the implementation:
+  let skipped := mme.filter fun (e, cs) => !(rme.any fun (e', cs') => e' = e && cs.all cs'.contains)
+  let resent := rme.filter fun (e, cs) => !(mme.any fun (e', cs') => e' = e && cs.all cs'.contains)
+  let vM := (if rme = mme then [] else [Verdict.mismatch "SRV" s!"tick {tick} client {c}: mutations impl {rme} model {mme}"]) ++
+    (if skipped.isEmpty || realU.length ≠ (if modelU.isSome then 1 else 0) then [] else
+      [Verdict.oracle "C11" s!"tick {tick} client {c}: changed data of {skipped} is not sent although no message containing it was acknowledged"]) ++
+    (if resent.isEmpty || !skipped.isEmpty || realU.length ≠ (if modelU.isSome then 1 else 0) then [] else
+      [Verdict.oracle "C11" s!"tick {tick} client {c}: {resent} is re-sent although a message containing it was acknowledged"])
   let ut := (o.map fun _ => 0).getD 0
   let _ := ut
   vU ++ vM
